@@ -253,6 +253,20 @@ CHECKS = {
         "allow_partial not covered.",
         technique="TLA+ linear-scan oracle + transcribed SQL predicate (TLC) + spec->code replay on three db classes + trace validation",
     ),
+    "C04": dict(
+        category="model_checking",
+        text="Annotation.tla fixes a feature's meaning at creation (Denotes(f): the parent residues it covers, read on its strand) over a "
+        "root of length P with annotation offset 0/3 and a plus- and a minus-strand feature with every 1-2 span placement; the view set "
+        "is closed under slicing, rc, copy, seq[feature], degap; per state TLC gives the residues each feature displays on the view, its "
+        "orientation and the status of every get_features window (with / without partial matches). AnnotationAln.tla does the same for "
+        "rows of an alignment, alignment-level features and projection through gapped rows. Every state and transition is rebuilt on old "
+        "and new Sequence (features added directly, on offsets, on slices, or through a BasicAnnotationDb) and on old-style Alignment, "
+        "and queries, coordinates, strand and feature slices are compared.",
+        design_ref="DESIGN.md section 2 / C04",
+        note="Trusted: TLC, harness projection. Strided / negative-argument views, add_feature on rc views, get_children/get_parent, "
+        "union/shadow, ArrayAlignment and new-style collections, offsets on alignment rows not covered; no code->spec trace validation.",
+        technique="TLA+ denotation model of features over views (TLC exhaustive) + spec->code state/transition replay",
+    ),
 }
 
 PENDING = {}
